@@ -21,6 +21,9 @@ pub enum SOp {
         #[serde(with = "fpairs")]
         vals: Vec<(f64, f64)>,
     },
+    /// merge the estimator with a clone of itself `times` times (doubles the count each time:
+    /// the way sample sizes beyond 2^53 are reached)
+    SelfMerge { times: u8 },
 }
 
 #[derive(Clone, Debug, Serialize, Deserialize)]
@@ -34,6 +37,18 @@ pub struct S18 {
 fn apply<T: Est>(t: &mut T, op: &SOp) {
     match op {
         SOp::Add { x, y } => t.add2(*x, *y),
+        SOp::SelfMerge { times } => {
+            if T::HAS_MERGE {
+                for _ in 0..*times {
+                    // stay clear of u64 overflow of the count (outside the property)
+                    if t.len_().map_or(false, |l| l > 1 << 61) {
+                        break;
+                    }
+                    let c = t.clone();
+                    t.merge_(&c);
+                }
+            }
+        }
         SOp::Merge { vals } => {
             if T::HAS_MERGE {
                 let mut o = T::new_();
@@ -148,7 +163,7 @@ fn run18<T: Est>(c: &S18, o: &mut Obs) -> TestResult {
     let tail_adds = c.ops[cp..].iter().filter(|op| matches!(op, SOp::Add { .. })).count();
     o.nontrivial = cp > 0 && cp < c.ops.len() && tail_adds >= 1;
     if T::NAME.starts_with("Quantile") {
-        let n_before: usize = c.ops[..cp].iter().map(|op| match op { SOp::Add { .. } => 1, SOp::Merge { vals } => vals.len() }).sum();
+        let n_before: usize = c.ops[..cp].iter().map(|op| match op { SOp::Add { .. } => 1, SOp::Merge { vals } => vals.len(), SOp::SelfMerge { .. } => 0 }).sum();
         if n_before < 5 {
             o.class("Quantile checkpoint before the fifth observation");
         } else {
@@ -160,6 +175,9 @@ fn run18<T: Est>(c: &S18, o: &mut Obs) -> TestResult {
     }
     if cp == 0 {
         o.class("checkpoint on the empty estimator");
+    }
+    if e.len_().map_or(false, |l| l > 1 << 53) {
+        o.class("sample size beyond 2^53");
     }
     o.classf(T::NAME.to_string());
     Ok(())
@@ -201,6 +219,7 @@ pub fn sop_strategy(kind: Kind) -> impl Strategy<Value = SOp> {
     prop_oneof![
         6 => (first_value(kind), second_value(kind)).prop_map(|(x, y)| SOp::Add { x, y }),
         1 => vec((first_value(kind), second_value(kind)), 0..6).prop_map(|vals| SOp::Merge { vals }),
+        1 => prop_oneof![3 => 1u8..4, 1 => 50u8..62].prop_map(|times| SOp::SelfMerge { times }),
     ]
 }
 
